@@ -238,6 +238,8 @@ def opaque_decorators(fn) -> list:
     for d in getattr(fn, "decorator_list", None) or []:
         e = d.func if isinstance(d, ast.Call) else d
         text = src(e)
+        if text.split(".")[-1] == "contextmanager" and any(isinstance(n, (ast.Yield, ast.YieldFrom)) for n in ast.walk(fn)):
+            continue      # a generator context manager: only usable in a with-statement, which the interpreter follows or gives up on
         if text not in BENIGN_DECORATORS and text.split(".")[-1] not in ("setter", "getter", "deleter"):
             out.append("@" + src(d))
     return out
